@@ -22,6 +22,10 @@ def run(tier, seed, replay=None):
     v = vlib.Verdict(pid, tier, seed)
     cfg = "Netceptor_quick.cfg" if tier == "quick" else "Netceptor_full.cfg"
     r = vlib.tlc_must_pass("Netceptor", cfg, wd, workers=10, timeout=3000, heap="12g")
+    live = None
+    if tier != "quick":
+        # liveness under fairness (no VIEW, no state constraint): the mesh reaches a stable - hence converged - state
+        live = vlib.tlc_must_pass("Netceptor", "Netceptor_live.cfg", wd, workers=8, timeout=4000, heap="10g")
     wit = vlib.witnesses("Netceptor", "Netceptor_line.cfg", ["W_NotStableAfterEvents", "W_NoIndirectRoute"], wd, workers=8, timeout=900)
     nsc, maxn = (24, 5) if tier == "quick" else (400, 6)
     hooks = os.path.join(wd, "mesh_hooks.ndjson")
@@ -52,6 +56,7 @@ def run(tier, seed, replay=None):
         "samples": out["harness"]["samples"][:2], "exhaustive": False, "witnesses": wit,
         "late_but_converged": late, "node_instances": nt["instances"], "node_trace_lines": nt["lines"],
         "rebuilds_checked": nt["classes"].get("rebuild", 0),
+        "tlc_liveness": ({"cfg": "Netceptor_live.cfg", "properties": ["Converges", "EventuallyStable"], "distinct": live.distinct} if live else None),
         "tlc_design": {"spec": "Netceptor.tla", "cfg": cfg, "generated": r.generated, "distinct": r.distinct, "wall_s": round(r.wall, 1)},
     }
     return v.finish("model_checking", cov, assumptions=[
